@@ -202,7 +202,25 @@ func (c *FuncCtx) convert(st *State, v *Val, t types.Type, pos token.Pos) *Val {
 		uf := "bytesToString"
 		c.eng.declareUF(uf, fmt.Sprintf("(declare-fun %s (%s) String)", uf, v.Sort))
 		r := &Val{T: t, S: app(uf, v.S), Sort: "String"}
-		st.assume(mkEq(app("str.len", r.S), app("len_"+v.Sort, v.S)))
+		st.assume(mkEq(app("str.len", r.S), acc("len_"+v.Sort, v.S)))
+		return r
+	case strings.HasPrefix(srt, "Sl_") && v.Sort == "String":
+		// []rune(s) / []byte(s): the language-defined conversion, as an
+		// uninterpreted function of the string
+		uf := "runesOf"
+		if b, ok := under(under(t).(*types.Slice).Elem()).(*types.Basic); ok && b.Kind() == types.Uint8 {
+			uf = "bytesOf"
+		}
+		c.eng.declareUF(uf, fmt.Sprintf("(declare-fun %s (String) %s)", uf, srt))
+		r := &Val{T: t, S: app(uf, v.S), Sort: srt}
+		l := acc("len_"+srt, r.S)
+		// (len(runes) <= len(s) also holds; it is left out because str.len terms
+		// slow the solvers down badly in the presence of quantifiers)
+		st.assume(mkAnd(mkEq(acc("off_"+srt, r.S), "0"), app("<=", "0", l),
+			mkEq(mkEq(l, "0"), mkEq(v.S, `""`)), mkNot(acc("nil_"+srt, r.S))))
+		if uf == "bytesOf" {
+			st.assume(mkEq(l, app("str.len", v.S)))
+		}
 		return r
 	case srt == "Int" && v.Sort == "Int":
 		r := &Val{T: t, S: v.S, Sort: "Int"}
@@ -295,15 +313,15 @@ func (c *FuncCtx) builtin(st *State, name string, x *ast.CallExpr) []*Val {
 			limitf("%s: copy on %s / %s", c.eng.posStr(x.Pos()), dst.Sort, src.Sort)
 		}
 		s := dst.Sort
-		n := mkIte(app("<=", app("len_"+s, dst.S), app("len_"+s, src.S)), app("len_"+s, dst.S), app("len_"+s, src.S))
+		n := mkIte(app("<=", acc("len_"+s, dst.S), acc("len_"+s, src.S)), acc("len_"+s, dst.S), acc("len_"+s, src.S))
 		es := c.eng.sortOf(under(dst.T).(*types.Slice).Elem())
 		nb := c.fresh("copy", fmt.Sprintf("(Array Int %s)", es))
 		i := c.bvar("i")
 		// new contents: src on [0,n), old dst elsewhere
 		st.assume(fmt.Sprintf("(forall ((%s Int)) (= (select %s %s) (ite (and (<= 0 %s) (< %s %s)) %s %s)))", i, nb, i, i, i, n,
-			mkSel(app("base_"+s, src.S), mkAdd(app("off_"+s, src.S), i)),
-			mkSel(app("base_"+s, dst.S), mkAdd(app("off_"+s, dst.S), i))))
-		nv := &Val{T: dst.T, S: app("mk_"+s, nb, "0", app("len_"+s, dst.S), app("nil_"+s, dst.S)), Sort: s}
+			mkSel(acc("base_"+s, src.S), mkAdd(acc("off_"+s, src.S), i)),
+			mkSel(acc("base_"+s, dst.S), mkAdd(acc("off_"+s, dst.S), i))))
+		nv := &Val{T: dst.T, S: app("mk_"+s, nb, "0", acc("len_"+s, dst.S), acc("nil_"+s, dst.S)), Sort: s}
 		c.assign(st, x.Args[0], nv)
 		return []*Val{{T: tInt, S: n, Sort: "Int"}}
 	case "panic":
@@ -316,7 +334,7 @@ func (c *FuncCtx) builtin(st *State, name string, x *ast.CallExpr) []*Val {
 		mt := under(m.T).(*types.Map)
 		k := c.coerce(st, c.eval(st, x.Args[1]), mt.Key())
 		s := m.Sort
-		nv := &Val{T: m.T, S: app("mk_"+s, mkStore(app("dom_"+s, m.S), k.S, tFalse), app("val_"+s, m.S), app("nil_"+s, m.S)), Sort: s}
+		nv := &Val{T: m.T, S: app("mk_"+s, mkStore(acc("dom_"+s, m.S), k.S, tFalse), acc("val_"+s, m.S), acc("nil_"+s, m.S)), Sort: s}
 		c.assign(st, x.Args[0], nv)
 		return []*Val{}
 	case "new":
@@ -337,16 +355,15 @@ func (c *FuncCtx) lenOf(st *State, v *Val) *Val {
 	switch {
 	case v.Sort == "String":
 		r := &Val{T: tInt, S: app("str.len", v.S), Sort: "Int"}
-		st.assume(app("<=", r.S, maxLenLit))
 		return r
 	case strings.HasPrefix(v.Sort, "Sl_"):
-		r := &Val{T: tInt, S: app("len_"+v.Sort, v.S), Sort: "Int"}
+		r := &Val{T: tInt, S: acc("len_"+v.Sort, v.S), Sort: "Int"}
 		return r
 	case strings.HasPrefix(v.Sort, "Mp_"):
 		uf := "maplen_" + v.Sort
 		c.eng.declareUF(uf, fmt.Sprintf("(declare-fun %s (%s) Int)", uf, v.Sort))
 		r := &Val{T: tInt, S: app(uf, v.S), Sort: "Int"}
-		st.assume(mkAnd(app("<=", "0", r.S), app("<=", r.S, maxLenLit)))
+		st.assume(app("<=", "0", r.S))
 		return r
 	}
 	limitf("len of %s", v.Sort)
@@ -357,9 +374,9 @@ func (c *FuncCtx) lenOf(st *State, v *Val) *Val {
 // the end of the window.
 func (c *FuncCtx) append1(st *State, s, v *Val) *Val {
 	srt := s.Sort
-	l := app("len_"+srt, s.S)
+	l := acc("len_"+srt, s.S)
 	nl := mkAdd(l, "1")
-	return &Val{T: s.T, S: app("mk_"+srt, mkStore(app("base_"+srt, s.S), mkAdd(app("off_"+srt, s.S), l), v.S), app("off_"+srt, s.S), nl, tFalse), Sort: srt}
+	return &Val{T: s.T, S: app("mk_"+srt, mkStore(acc("base_"+srt, s.S), mkAdd(acc("off_"+srt, s.S), l), v.S), acc("off_"+srt, s.S), nl, tFalse), Sort: srt}
 }
 
 // appendSlice: append(s, t...)
@@ -371,13 +388,13 @@ func (c *FuncCtx) appendSlice(st *State, s, t *Val) *Val {
 	sl := under(s.T).(*types.Slice)
 	es := c.eng.sortOf(sl.Elem())
 	nb := c.fresh("app", fmt.Sprintf("(Array Int %s)", es))
-	ls, lt := app("len_"+srt, s.S), app("len_"+srt, t.S)
+	ls, lt := acc("len_"+srt, s.S), acc("len_"+srt, t.S)
 	i := c.bvar("i")
 	st.assume(fmt.Sprintf("(forall ((%s Int)) (= (select %s %s) (ite (< %s %s) %s %s)))", i, nb, i, i, ls,
-		mkSel(app("base_"+srt, s.S), mkAdd(app("off_"+srt, s.S), i)),
-		mkSel(app("base_"+srt, t.S), mkAdd(app("off_"+srt, t.S), mkSub(i, ls)))))
+		mkSel(acc("base_"+srt, s.S), mkAdd(acc("off_"+srt, s.S), i)),
+		mkSel(acc("base_"+srt, t.S), mkAdd(acc("off_"+srt, t.S), mkSub(i, ls)))))
 	nl := mkAdd(ls, lt)
-	nilv := mkAnd(app("nil_"+srt, s.S), mkEq(lt, "0"))
+	nilv := mkAnd(acc("nil_"+srt, s.S), mkEq(lt, "0"))
 	r := &Val{T: s.T, S: app("mk_"+srt, nb, "0", nl, nilv), Sort: srt}
 	return r
 }
@@ -415,6 +432,25 @@ func (c *FuncCtx) specBuiltin(st *State, name string, x *ast.CallExpr) ([]*Val, 
 		return []*Val{{T: t, S: mkIte(cnd.S, l.S, r.S), Sort: l.Sort, Untyped: l.Untyped && r.Untyped}}, true
 	case "forall", "exists":
 		return []*Val{c.quant(st, name, x)}, true
+	case "unfold":
+		call, ok := x.Args[0].(*ast.CallExpr)
+		if !ok {
+			limitf("unfold needs a call of a recursive spec function")
+		}
+		id, _ := call.Fun.(*ast.Ident)
+		var sf *SpecFunc
+		if id != nil {
+			sf = c.eng.spec.Funcs[id.Name]
+		}
+		if sf == nil || !sf.Rec {
+			limitf("unfold needs a call of a recursive spec function")
+		}
+		lhs := c.callSpecFunc(st, sf, call)
+		rhs := c.expandSpecFunc(st, sf, call)
+		f := mkEq(lhs.S, rhs.S)
+		st.assume(f)
+		c.unfoldFacts = append(c.unfoldFacts, f)
+		return b(tTrue), true
 	case "hasPrefix":
 		s, p := c.eval(st, x.Args[0]), c.eval(st, x.Args[1])
 		return b(app("str.prefixof", p.S, s.S)), true
@@ -460,7 +496,7 @@ func (c *FuncCtx) specBuiltin(st *State, name string, x *ast.CallExpr) ([]*Val, 
 		m := c.eval(st, x.Args[0])
 		mt := under(m.T).(*types.Map)
 		k := c.coerce(st, c.eval(st, x.Args[1]), mt.Key())
-		return b(mkSel(app("dom_"+m.Sort, m.S), k.S)), true
+		return b(mkSel(acc("dom_"+m.Sort, m.S), k.S)), true
 	case "result":
 		if v, ok := st.bound["$result"]; ok {
 			return []*Val{v}, true
@@ -554,6 +590,59 @@ func (c *FuncCtx) quant(st *State, kind string, x *ast.CallExpr) *Val {
 	} else if _, isPtr := under(vt).(*types.Pointer); isPtr {
 		rng = app("<", "0", bv)
 	}
+	// a range with literal bounds and at most 4 elements is expanded: solvers
+	// are bad at instantiating "0 <= p < 1"
+	if lo != nil {
+		if l, ok1 := isIntLit(lo.S); ok1 {
+			if h, ok2 := isIntLit(hi.S); ok2 && h-l <= 4 {
+				var parts []string
+				for k := l; k < h; k++ {
+					inst := strings.ReplaceAll(mkImplies(mkAnd(inner...), p.S), bv, mkInt(k))
+					if kind == "exists" {
+						inst = strings.ReplaceAll(mkAnd(append(append([]string{}, inner...), p.S)...), bv, mkInt(k))
+					}
+					parts = append(parts, inst)
+				}
+				if kind == "forall" {
+					return &Val{T: tBool, S: mkAnd(parts...), Sort: "Bool"}
+				}
+				return &Val{T: tBool, S: mkOr(parts...), Sort: "Bool"}
+			}
+		}
+	}
+	// tail split: a range [lo, X+k) (k <= 3) is written as [lo, X) plus the
+	// ground instances at X .. X+k-1 (equivalent; it lines the quantified part
+	// up with the same invariant one iteration earlier and saves the solver
+	// instantiations that need arithmetic reasoning)
+	if lo != nil {
+		if x0, k, ok := splitPlusConst(hi.S); ok && k >= 1 && k <= 3 && !strings.Contains(x0, "?") {
+			body := mkImplies(mkAnd(inner...), p.S)
+			if kind == "exists" {
+				body = mkAnd(append(append([]string{}, inner...), p.S)...)
+			}
+			srt := c.eng.sortOf(vt)
+			rng2 := mkAnd(app("<=", lo.S, bv), app("<", bv, x0))
+			var parts []string
+			if kind == "forall" {
+				parts = append(parts, fmt.Sprintf("(forall ((%s %s)) %s)", bv, srt, mkImplies(rng2, body)))
+			} else {
+				parts = append(parts, fmt.Sprintf("(exists ((%s %s)) %s)", bv, srt, mkAnd(rng2, body)))
+			}
+			for d := int64(0); d < k; d++ {
+				at := mkAdd(x0, mkInt(d))
+				inst := strings.ReplaceAll(body, bv, at)
+				if kind == "forall" {
+					parts = append(parts, mkImplies(app("<=", lo.S, at), inst))
+				} else {
+					parts = append(parts, mkAnd(app("<=", lo.S, at), inst))
+				}
+			}
+			if kind == "forall" {
+				return &Val{T: tBool, S: mkAnd(parts...), Sort: "Bool"}
+			}
+			return &Val{T: tBool, S: mkOr(parts...), Sort: "Bool"}
+		}
+	}
 	var t string
 	srt := c.eng.sortOf(vt)
 	if kind == "forall" {
@@ -612,6 +701,43 @@ func (c *FuncCtx) callSpecFunc(st *State, sf *SpecFunc, x *ast.CallExpr) *Val {
 	return c.coerce(st, v, rt)
 }
 
+// expandSpecFunc evaluates the body of a spec function with the parameters
+// bound to the call's arguments (one unfolding).
+func (c *FuncCtx) expandSpecFunc(st *State, sf *SpecFunc, x *ast.CallExpr) *Val {
+	var names []string
+	var ptypes []types.Type
+	for _, f := range sf.Decl.Type.Params.List {
+		t := c.resolveSpecType(f.Type)
+		for _, n := range f.Names {
+			names = append(names, n.Name)
+			ptypes = append(ptypes, t)
+		}
+	}
+	var rt types.Type = tBool
+	if sf.Decl.Type.Results != nil && len(sf.Decl.Type.Results.List) > 0 {
+		rt = c.resolveSpecType(sf.Decl.Type.Results.List[0].Type)
+	}
+	args := make([]*Val, len(x.Args))
+	for i, a := range x.Args {
+		args[i] = c.coerce(st, c.eval(st, a), ptypes[i])
+	}
+	saved := st.bound
+	nb := map[string]*Val{}
+	for k, v := range saved {
+		if strings.HasPrefix(k, "$") {
+			nb[k] = v
+		}
+	}
+	for i, n := range names {
+		nb[n] = args[i]
+	}
+	nb["$spec"] = &Val{S: "1"}
+	st.bound = nb
+	v := c.eval(st, sf.Body)
+	st.bound = saved
+	return c.coerce(st, v, rt)
+}
+
 // defineSpec emits (define-fun[-rec] sf_name ...) once for a spec function
 // whose body does not read the heap; other (non-recursive) spec functions are
 // expanded as macros at each use.
@@ -648,11 +774,19 @@ func (e *Engine) defineSpec(c *FuncCtx, sf *SpecFunc, names []string, ptypes []t
 		e.specDefs[sf.Name] = "macro"
 		return false
 	}
-	kw := "define-fun"
 	if sf.Rec {
-		kw = "define-fun-rec"
+		// a recursive spec function is an uninterpreted symbol; its definition
+		// is supplied one instance at a time by unfold(f(args)) hints (solvers
+		// unfold define-fun-rec eagerly and drown in it)
+		var psorts []string
+		for i := range names {
+			psorts = append(psorts, e.sortOf(ptypes[i]))
+		}
+		e.specDefs[sf.Name] = fmt.Sprintf("(declare-fun sf_%s (%s) %s)", sf.Name, strings.Join(psorts, " "), e.sortOf(rt))
+		e.specOrder = append(e.specOrder, sf.Name)
+		return true
 	}
-	e.specDefs[sf.Name] = fmt.Sprintf("(%s sf_%s (%s) %s %s)", kw, sf.Name, strings.Join(ps, " "), e.sortOf(rt), body.S)
+	e.specDefs[sf.Name] = fmt.Sprintf("(define-fun sf_%s (%s) %s %s)", sf.Name, strings.Join(ps, " "), e.sortOf(rt), body.S)
 	e.specOrder = append(e.specOrder, sf.Name)
 	return true
 }
